@@ -13,10 +13,26 @@ import (
 
 var le = binary.LittleEndian
 
+// Field locates one integer field (including length prefixes) inside a record body.
+type Field struct {
+	Off   int
+	Width int
+	Name  string
+	Value uint64
+}
+
 type cur struct {
-	b   []byte
-	off int
-	err error
+	b    []byte
+	off  int
+	err  error
+	base int      // offset of b[0] inside the enclosing record body
+	rec  *[]Field // when non-nil every integer read is recorded
+}
+
+func (c *cur) note(width int, name string, v uint64) {
+	if c.rec != nil {
+		*c.rec = append(*c.rec, Field{Off: c.base + c.off - width, Width: width, Name: name, Value: v})
+	}
 }
 
 func (c *cur) fail(what string) {
@@ -31,6 +47,7 @@ func (c *cur) u8(what string) byte {
 	}
 	v := c.b[c.off]
 	c.off++
+	c.note(1, what, uint64(v))
 	return v
 }
 func (c *cur) u16(what string) uint16 {
@@ -40,6 +57,7 @@ func (c *cur) u16(what string) uint16 {
 	}
 	v := le.Uint16(c.b[c.off:])
 	c.off += 2
+	c.note(2, what, uint64(v))
 	return v
 }
 func (c *cur) u32(what string) uint32 {
@@ -49,6 +67,7 @@ func (c *cur) u32(what string) uint32 {
 	}
 	v := le.Uint32(c.b[c.off:])
 	c.off += 4
+	c.note(4, what, uint64(v))
 	return v
 }
 func (c *cur) u64(what string) uint64 {
@@ -58,6 +77,7 @@ func (c *cur) u64(what string) uint64 {
 	}
 	v := le.Uint64(c.b[c.off:])
 	c.off += 8
+	c.note(8, what, v)
 	return v
 }
 func (c *cur) bytesN(n uint64, what string) []byte {
@@ -79,7 +99,7 @@ func (c *cur) strmap(what string) []KV {
 	if c.err != nil {
 		return nil
 	}
-	in := &cur{b: body}
+	in := &cur{b: body, base: c.base + c.off - len(body), rec: c.rec}
 	var out []KV
 	for in.off < len(in.b) && in.err == nil {
 		k := in.str(what + ".key")
@@ -104,15 +124,33 @@ func (c *cur) u16u64map(what string) []U16U64 {
 		return nil
 	}
 	var out []U16U64
+	start := c.base + c.off - len(body)
 	for i := 0; i < len(body); i += 10 {
 		out = append(out, U16U64{le.Uint16(body[i:]), le.Uint64(body[i+2:])})
+		if c.rec != nil {
+			*c.rec = append(*c.rec, Field{start + i, 2, what + ".key", uint64(le.Uint16(body[i:]))}, Field{start + i + 2, 8, what + ".value", le.Uint64(body[i+2:])})
+		}
 	}
 	return out
 }
 
 // ParseBody parses a record body strictly by the spec's field tables. Unknown opcodes give (nil,0,nil).
 func ParseBody(op byte, body []byte) (parsed any, extra int, err error) {
-	c := &cur{b: body}
+	return parseBody(op, body, nil)
+}
+
+// BodyFields lists every integer field of a record body with its position (empty for unknown opcodes
+// and bodies that do not parse).
+func BodyFields(op byte, body []byte) []Field {
+	var fs []Field
+	if _, _, err := parseBody(op, body, &fs); err != nil {
+		return fs // the fields read before the failure are still useful mutation targets
+	}
+	return fs
+}
+
+func parseBody(op byte, body []byte, rec *[]Field) (parsed any, extra int, err error) {
+	c := &cur{b: body, rec: rec}
 	switch op {
 	case OpHeader:
 		v := &Header{}
@@ -174,6 +212,10 @@ func ParseBody(op byte, body []byte) (parsed any, extra int, err error) {
 			}
 			for i := 0; i+16 <= len(b); i += 16 {
 				v.Entries = append(v.Entries, MessageIndexEntry{le.Uint64(b[i:]), le.Uint64(b[i+8:])})
+				if rec != nil {
+					start := c.off - len(b)
+					*rec = append(*rec, Field{start + i, 8, "entry.log_time", le.Uint64(b[i:])}, Field{start + i + 8, 8, "entry.offset", le.Uint64(b[i+8:])})
+				}
 			}
 		}
 		parsed = v
